@@ -1,8 +1,12 @@
 """GenState.v: inventory of process-global state and nondeterminism sources of prqlc / prqlc-parser (Tie A of C11).
 
 Rows are (file, kind, item):
-  kind = static | once | lazy | thread_local | lock | atomic | env | clock | random | hash-iter | unsafe
-  item = the name of the static / the env call / `<fn>:<ident>.<method>` for an iteration over a HashMap/HashSet.
+  kind = static | once | lazy | thread_local | lock | atomic | env | clock | random | hash-iter | unsafe | under-lock
+  item = the name of the static / the env call / `<fn>:<ident>.<method>` for an iteration over a HashMap/HashSet /
+         `<fn>:<LOCK>.<write|read|lock>[:<op>...]` for a function that takes a static lock, with every operation that
+         can panic (arithmetic assignment, assert, unwrap, expect, panic) or that was chosen not to (saturating_*)
+         between taking the lock and the end of the function -- a panic there poisons the lock for the whole process
+         (F10h: an assert in log_start; F10j: `suppress_count -= 1` in LogSuppressLock::drop).
 Hash iteration is approximated by type annotations: an identifier (local, parameter or struct field) whose
 declared type mentions HashMap / HashSet (or that is initialised from HashMap::/HashSet:: or collected with a
 turbofish into one), used with .iter() .iter_mut() .into_iter() .keys() .values() .values_mut() .into_keys()
@@ -122,6 +126,10 @@ def enclosing_fn(spans, pos):
 SORT_CALL = re.compile(r"\.\s*(sort|sort_by|sort_by_key|sort_unstable|sort_unstable_by|sort_unstable_by_key|sorted|sorted_by|sorted_by_key|sorted_unstable)\s*\(")
 
 
+UNDER_LOCK_OPS = re.compile(r"(-=|\+=|\*=|\bsaturating_sub\b|\bsaturating_add\b|\bwrapping_sub\b|\bwrapping_add\b|\bchecked_sub\b|\bchecked_add\b"
+                            r"|\bassert(?:_eq|_ne)?!|\bdebug_assert(?:_eq|_ne)?!|\.\s*unwrap\s*\(|\.\s*expect\s*\(|\bpanic!|\bunreachable!|\btodo!|\bunimplemented!)")
+
+
 def sorted_after(m, spans, pos):
     """is there a sort call between the iteration and the end of the enclosing fn?  (recorded in the row, so
     that dropping the sort changes the inventory)"""
@@ -182,6 +190,14 @@ def extract():
             if re.match(r"static\s+mut\b", mm.group(0)):
                 kind = "static-mut"
             rows.append((rel, kind, mm.group(1)))
+        for lk in re.finditer(r"\bstatic\s+(?:mut\s+)?([A-Z_][A-Z0-9_]*)\s*:\s*[^=;]*\b(?:RwLock|Mutex)\b", m):
+            for s_, e_, n_ in spans:
+                body = m[s_:e_]
+                for a in re.finditer(r"\b%s\s*\.\s*(write|read|lock|try_write|try_read|try_lock)\s*\(\s*\)(?:\s*\.\s*(?:unwrap\s*\(\s*\)|unwrap_or_else\s*\([^;]*?\)|expect\s*\([^;]*?\)))?" % re.escape(lk.group(1)), body):
+                    if enclosing_fn(spans, s_ + a.start()) != n_:
+                        continue      # reported for the innermost function only
+                    ops = UNDER_LOCK_OPS.findall(body[a.end():])
+                    rows.append((rel, "under-lock", "%s:%s.%s%s" % (n_, lk.group(1), a.group(1), "".join(":" + re.sub(r"\s+", "", o).strip(".(") for o in ops))))
         for mm in re.finditer(r"\b(lazy_static|thread_local)\s*!", m):
             rows.append((rel, "lazy" if mm.group(1) == "lazy_static" else "thread_local", enclosing_fn(spans, mm.start())))
         for mm in re.finditer(r"\benv::(var|vars|var_os|args|current_dir|temp_dir|set_var)\b", m):
